@@ -2095,20 +2095,11 @@ impl BytecodeVM {
         // Create guarded exception value
         let guarded = Guarded::from_value(exception, &interp.heap);
 
-        // Try to find an exception handler
-        if let Some((handler_ip, is_catch)) = self.find_exception_handler(interp) {
-            self.ip = handler_ip;
-            if is_catch {
-                self.exception_value = Some(guarded);
-            } else {
-                self.pending_completion = Some(PendingCompletion::Throw(guarded));
-            }
-            true
-        } else {
-            // No handler found - store exception for propagation
-            self.exception_value = Some(guarded);
-            false
-        }
+        // The same handler search as for a throw at the suspension point: this frame first,
+        // then the callers on the trampoline stack (an async function that awaits the value
+        // may be called from inside its caller's try block).
+        self.handle_error_with_trampoline_unwind(interp, JsError::thrown(guarded))
+            .is_ok()
     }
 
     /// Execute a single opcode
